@@ -24,7 +24,7 @@ def lookup(regs, name, which):
 
 
 ELF_REGS = ('elf_h.json', 'llvm_elf.json', 'supplement.json')
-DW_REGS = ('llvm_dwarf.json',)
+DW_REGS = ('llvm_dwarf.json', 'supplement.json')
 
 
 def tables():
